@@ -12,6 +12,8 @@
                             a deposit is no `standard` coin; the spendable amount sums non-deposits only
     withdrawable_iff / staking_withdrawable_iff / binding_*_withdrawable_iff
                             the wallet's maturity test on an unspent deposit = the consensus sequence lock
+    deposit_credit_stk_cb / spendableAt_stk_cb / staking_cb_withdrawable_iff
+                            a staking output of a COINBASE: coinbase maturity AND sequence lock (max of both)
   Every statement is about the store `s` of ANY history that ends with `Inv c s chain` (blocks connected,
   rolled back, reorganised): the records are a function of the current chain, so a withdrawal that is
   reorganised away is shown as not withdrawn again (`unwithdrawn_iff` at the new chain).
@@ -93,7 +95,7 @@ theorem created_credit (hI : Inv c s chain) (hV : ChainValid c.own chain) {u : U
     (hc : CreatedIn c.own (occs chain) u) :
     ∃ cr, AMap.get s.credits u.credKey = some cr ∧ cr.amt = u.out.amt ∧ cr.sh = u.out.addr ∧
       cr.cls = uclassOf u.out.cls ∧
-      cr.maturity = (if u.cb then c.p.cbMaturity else u.out.cls.maturity) % 2^32 ∧
+      cr.maturity = (if u.cb then max c.p.cbMaturity u.out.cls.maturity else u.out.cls.maturity) % 2^32 ∧
       (cr.spent = true ↔ (u.tx, u.idx) ∈ spentOps (occs chain)) := by
   have hC := credInv_bookOf (p := c.p) hV
   by_cases hs : (u.tx, u.idx) ∈ spentOps (occs chain)
@@ -112,7 +114,7 @@ theorem deposit_credit (hI : Inv c s chain) (hV : ChainValid c.own chain) {u : U
     (hc : CreatedIn c.own (occs chain) u) (_hd : isDeposit u.out.cls = true) :
     ∃ cr, AMap.get s.credits u.credKey = some cr ∧ cr.amt = u.out.amt ∧ cr.sh = u.out.addr ∧
       cr.cls = uclassOf u.out.cls ∧
-      cr.maturity = (if u.cb then c.p.cbMaturity else u.out.cls.maturity) % 2^32 ∧
+      cr.maturity = (if u.cb then max c.p.cbMaturity u.out.cls.maturity else u.out.cls.maturity) % 2^32 ∧
       (cr.spent = true ↔ (u.tx, u.idx) ∈ spentOps (occs chain)) :=
   created_credit hI hV hc
 
@@ -131,6 +133,23 @@ theorem deposit_credit_stk (hI : Inv c s chain) (hV : ChainValid c.own chain) {u
   refine ⟨cr, h1, h2, h3, ?_, hm, by omega, h6⟩
   rw [h4, hf]; rfl
 
+/-- staking output OF A COINBASE: the stored maturity is the larger of the coinbase maturity and
+    frozen period + 1 (both the coinbase rule and the sequence lock of the script must hold) -/
+theorem deposit_credit_stk_cb (hI : Inv c s chain) (hV : ChainValid c.own chain) {u : UCoin}
+    (hc : CreatedIn c.own (occs chain) u) {f : Nat} (hf : u.out.cls = .stk f) (hcb : u.cb = true)
+    (hb : f + 1 < 2^32) (hm : c.p.cbMaturity < 2^32) :
+    ∃ cr, AMap.get s.credits u.credKey = some cr ∧ cr.amt = u.out.amt ∧ cr.sh = u.out.addr ∧
+      cr.cls = .staking ∧ cr.maturity = max c.p.cbMaturity (f + 1) ∧
+      (cr.spent = true ↔ (u.tx, u.idx) ∈ spentOps (occs chain)) := by
+  obtain ⟨cr, h1, h2, h3, h4, h5, h6⟩ := created_credit hI hV hc
+  have hmm : cr.maturity = max c.p.cbMaturity (f + 1) := by
+    rw [h5, hcb, hf]
+    simp only [if_true, Cls.maturity]
+    apply Nat.mod_eq_of_lt
+    omega
+  refine ⟨cr, h1, h2, h3, ?_, hmm, h6⟩
+  rw [h4, hf]; rfl
+
 /-- the same per entry of the spec list: the record of deposit `d` (key: tx, height, vout) has a credit in
     the block at that height with the deposit's amount, address and class, spent iff `d.withdrawn` -/
 theorem deposit_entry (hI : Inv c s chain) (hV : ChainValid c.own chain) {w : Wid} {d : Deposit}
@@ -138,7 +157,7 @@ theorem deposit_entry (hI : Inv c s chain) (hV : ChainValid c.own chain) {w : Wi
     ∃ (bh : BlkId) (cb : Bool) (cr : Credit),
       AMap.get s.credits ⟨d.tx, ⟨d.height, bh⟩, d.idx⟩ = some cr ∧ cr.amt = d.amt ∧ cr.sh = d.addr ∧
       cr.cls = uclassOf d.cls ∧ cr.cls ≠ .standard ∧
-      cr.maturity = (if cb then c.p.cbMaturity else d.cls.maturity) % 2^32 ∧
+      cr.maturity = (if cb then max c.p.cbMaturity d.cls.maturity else d.cls.maturity) % 2^32 ∧
       (cr.spent = true ↔ d.withdrawn = true) := by
   obtain ⟨u, hc, hdep, _, rfl⟩ := (deposits_mem_iff c.own chain w d).1 hd
   obtain ⟨cr, h1, h2, h3, h4, h5, h6⟩ := created_credit hI hV hc
@@ -292,28 +311,45 @@ theorem ObsHyp.length_pos (H : ObsHyp c s chain) : 0 < chain.length := by
 theorem spendableAt_stk (p : Params) {chain : List Block} (hpos : 0 < chain.length) {u : UCoin} {f : Nat}
     (hf : u.out.cls = .stk f) (hcb : u.cb = false) :
     spendableAt p (chain.length - 1) u.toSCoin = true ↔ u.blk.height + f + 1 ≤ chain.length := by
-  unfold spendableAt UCoin.toSCoin
-  simp only [hcb, hf, Bool.false_eq_true, if_false, decide_eq_true_eq]
+  unfold spendableAt seqOK UCoin.toSCoin
+  simp only [hcb, hf, Bool.false_eq_true, if_false, Bool.true_and, decide_eq_true_eq]
+  omega
+
+/-- the consensus rule for a staking output OF A COINBASE: the coinbase maturity AND the sequence lock -/
+theorem spendableAt_stk_cb (p : Params) {chain : List Block} (hpos : 0 < chain.length) {u : UCoin} {f : Nat}
+    (hf : u.out.cls = .stk f) (hcb : u.cb = true) :
+    spendableAt p (chain.length - 1) u.toSCoin = true ↔
+      u.blk.height + p.cbMaturity ≤ chain.length ∧ u.blk.height + f + 1 ≤ chain.length := by
+  unfold spendableAt seqOK UCoin.toSCoin
+  simp only [hcb, hf, if_true, Bool.and_eq_true, decide_eq_true_eq]
   omega
 
 theorem spendableAt_bindNew (p : Params) {chain : List Block} (hpos : 0 < chain.length) {u : UCoin} {t : String}
     (hf : u.out.cls = .bindNew t) (hcb : u.cb = false) :
     spendableAt p (chain.length - 1) u.toSCoin = true ↔ u.blk.height + 0xfffffffe ≤ chain.length := by
-  unfold spendableAt UCoin.toSCoin
-  simp only [hcb, hf, Bool.false_eq_true, if_false, decide_eq_true_eq]
+  unfold spendableAt seqOK UCoin.toSCoin
+  simp only [hcb, hf, Bool.false_eq_true, if_false, Bool.true_and, decide_eq_true_eq]
   have : bindingLockedPeriod = 0xfffffffe := rfl
   omega
 
 theorem spendableAt_bindOld (p : Params) (tip : Nat) {u : UCoin} {t : String}
     (hf : u.out.cls = .bindOld t) (hcb : u.cb = false) : spendableAt p tip u.toSCoin = true := by
-  unfold spendableAt UCoin.toSCoin
-  simp only [hcb, hf, Bool.false_eq_true, if_false]
+  unfold spendableAt seqOK UCoin.toSCoin
+  simp only [hcb, hf, Bool.false_eq_true, if_false, Bool.true_and]
 
 /-- 5c. WITHDRAWABLE EXACTLY AT THE HEIGHT CONSENSUS ALLOWS, staking -/
 theorem staking_withdrawable_iff (H : ObsHyp c s chain) {u : UCoin} (hu : u ∈ (bookOf c.p c.own chain).L)
     {f : Nat} (hf : u.out.cls = .stk f) (hcb : u.cb = false) :
     confs s.syncedTo u.blk.height ≥ (creditOf c.p u).maturity ↔ u.blk.height + f + 1 ≤ chain.length :=
   (spendable_iff H hu).trans (spendableAt_stk c.p H.length_pos hf hcb)
+
+/-- staking output of a coinbase: withdrawable exactly when BOTH the coinbase maturity and the frozen period
+    have passed -/
+theorem staking_cb_withdrawable_iff (H : ObsHyp c s chain) {u : UCoin} (hu : u ∈ (bookOf c.p c.own chain).L)
+    {f : Nat} (hf : u.out.cls = .stk f) (hcb : u.cb = true) :
+    confs s.syncedTo u.blk.height ≥ (creditOf c.p u).maturity ↔
+      u.blk.height + c.p.cbMaturity ≤ chain.length ∧ u.blk.height + f + 1 ≤ chain.length :=
+  (spendable_iff H hu).trans (spendableAt_stk_cb c.p H.length_pos hf hcb)
 
 /-- MASSIP-2 binding: locked for 0xfffffffe blocks -/
 theorem binding_new_withdrawable_iff (H : ObsHyp c s chain) {u : UCoin} (hu : u ∈ (bookOf c.p c.own chain).L)
